@@ -719,8 +719,13 @@ def polyfit(x, y, deg, **kwargs):
     u_x = unit_of(x[0])
     u_y = unit_of(y[0])
     _x, _y = to_unitless(x, u_x), to_unitless(y, u_y)
-    p = np.polyfit(_x, _y, deg, **kwargs)
-    return [v * u_y * u_x ** (i - deg) for i, v in enumerate(p)]
+    res = np.polyfit(_x, _y, deg, **kwargs)
+    # full=True / cov=True: (coefficients, further outputs for the magnitudes...)
+    p = res[0] if isinstance(res, tuple) else res
+    coeffs = [v * u_y * u_x ** (i - deg) for i, v in enumerate(p)]
+    if isinstance(res, tuple):
+        return (coeffs,) + tuple(res[1:])
+    return coeffs
 
 
 def polyval(p, x):
